@@ -71,19 +71,34 @@ def recorded_index(cx):
         cx.check(imm or rel, cx.site_key(c, "read-index"), "a read is answered with raft_log.committed or with the (req, index) pair recorded at registration (found %s)" % show(idx)[:100], c)
         nimm += 1
     cx.check(nimm >= 2, "read-index:floor", "the sites answering reads were found")
-    # what add_request stores
-    a = cx.prog.A(ar)
+    # what add_request stores (directly, or through a private constructor helper it calls with its own parameters)
     ok_idx = ok_req = ok_ack = False
-    for bi in sorted(a.reach):
-        for si, st in enumerate(ar.body.blocks[bi]["stmts"]):
-            if st["k"] == "assign" and st["rv"].get("agg") == "adt" and st["rv"]["adt"].endswith("ReadIndexStatus"):
-                e = a.expr_rvalue(st["rv"], (bi, si))
-                d = dict(e[2])
-                ok_idx = d.get("index", ("?",))[0] == "param"
-                ok_req = d.get("req", ("?",))[0] == "param"
-    for c in cx.prog.call_sites_of("HashSet::insert"):
-        if c.fn is ar:
-            ok_ack = call_args(cx, c)[1][0] == "param"
+    cands = [(ar, None)]
+    for sp, c in cx.prog.calls_out[ar.key]:
+        hf = cx.prog.fn_by_short(sp) if c.kind == "call" and sp in cx.prog.short else None
+        if hf is not None and hf.vis != "Public" and hf.crate == "raft":
+            cands.append((hf, c))
+
+    def from_param(h, site, v):
+        """v (an expression inside h) is a parameter of add_request"""
+        if v[0] != "param":
+            return False
+        if site is None:
+            return True
+        args = call_args(cx, site)
+        return v[1] - 1 < len(args) and args[v[1] - 1][0] == "param"
+    for h, site in cands:
+        a = cx.prog.A(h)
+        for bi in sorted(a.reach):
+            for si, st in enumerate(h.body.blocks[bi]["stmts"]):
+                if st["k"] == "assign" and st["rv"].get("agg") == "adt" and st["rv"]["adt"].endswith("ReadIndexStatus"):
+                    e = a.expr_rvalue(st["rv"], (bi, si))
+                    d = dict(e[2])
+                    ok_idx = from_param(h, site, d.get("index", ("?",)))
+                    ok_req = from_param(h, site, d.get("req", ("?",)))
+        for c in cx.prog.call_sites_of("HashSet::insert"):
+            if c.fn is h:
+                ok_ack = ok_ack or from_param(h, site, call_args(cx, c)[1])
     cx.check(ok_idx and ok_req and ok_ack, "stored", "add_request stores (req, index) as given and starts the ack set with the leader's own id")
 
 
